@@ -19,7 +19,8 @@ ASSUMPTIONS = ['"known" codes are those the library documents (AnsiParam): typed
                'tokens that only Python int() accepts (padding, sign, underscores, non-ASCII digits) are grey']
 MIN_EVAL = 1000
 CASES = {'quick': 800, 'thorough': 10800}
-WEIGHTS = {'apply': 14, 'remove': 3, 'simplify': 1}
+WEIGHTS = {'apply': 14, 'remove': 3, 'simplify': 1, 'flags': 8, 'iadd': 6, 'add': 3, 'assign_str': 2, 'clip': 2,
+           'replace': 2, 'pad': 2}
 
 ALPHA = '0123456789;;;; :<=>?mHJ~@aZ[\\'
 NEAR = ['38;5', '38;5;256', '38;2;1;2', '38;2;1;2;3', '38;2;1;2;3;4', '0', '00', '1;1', '1m', '1', '01', '001', '38',
@@ -236,7 +237,7 @@ def drive(ctx, mon, tier, only_case=None):
                 check_flags(ctx, L, gen_setting_text(rng))
             guaranteed_forms(ctx, L, rng)
         # values mixing such settings with named ones
-        hg = history(L, rng, ex, rng.randint(1, 6), sz['maxlen'], rng.choice(['mixed', 'hostile', 'wf']), WEIGHTS)
+        hg = history(L, rng, ex, rng.randint(1, 10), sz['maxlen'], rng.choice(['mixed', 'hostile', 'wf']), WEIGHTS)
         for _ in range(rng.randint(0, 3)):
             ri = hg.pick_val()
             if ri is None:
@@ -247,6 +248,17 @@ def drive(ctx, mon, tier, only_case=None):
             n = len(ex.pool[ri].base_str)
             ex.run({'m': 'apply_formatting', 'r': ri, 'a': [{'S': t} if rng.random() < 0.5 else '[' + t,
                                                            rng.randint(0, max(0, n - 1)), rng.choice([None, n, n - 1])]})
+        for _ in range(rng.randint(0, 3)):
+            # query, extend in place with a value carrying a verbatim / invalid setting, query again
+            ri = hg.pick_val()
+            if ri is None or not isinstance(ex.pool[ri], L.AnsiString):
+                continue
+            ex.run({'m': rng.choice(['is_formatting_valid', 'is_formatting_parsable', 'str']), 'r': ri})
+            t = gen_setting_text(rng)
+            if t:
+                ex.run({'m': 'new', 'cls': rng.choice(['AnsiString', 'AnsiStr']), 'a': ['de', {'S': t}]})
+                ex.run({'m': rng.choice(['iadd', 'iadd', 'add']), 'r': ri, 'a': [{'$': len(ex.pool) - 1}]})
+            ex.run({'m': rng.choice(['is_formatting_valid', 'is_formatting_parsable', 'is_optimizable']), 'r': ri})
         for v in ansi_values(L, ex)[-6:]:
             try:
                 v.is_formatting_valid()
